@@ -67,12 +67,15 @@ def rule_expsup(crate):
     while work:
         cur = work.pop()
         for x in walk(cur["body"]):
+            c = ""
             if x.get("k") in ("Call", "MethodCall"):
                 c = callee(x) or ""
-                if c.startswith("crate::arithmetic::") and c in crate.hir and c not in seen and len(seen) < 8:
-                    seen.add(c)
-                    chain.append(crate.hir[c])
-                    work.append(crate.hir[c])
+            elif x.get("k") == "Path" and x["res"].get("r") == "def" and str(x["res"].get("dk", "")).startswith(("Fn", "AssocFn")):
+                c = x["res"].get("inst") or x["res"].get("path") or ""  # a function passed as a value: `.map(superscript_char)`
+            if c.startswith("crate::arithmetic::") and c in crate.hir and c not in seen and len(seen) < 8:
+                seen.add(c)
+                chain.append(crate.hir[c])
+                work.append(crate.hir[c])
     mappers = [b for b in chain if _maps_digits(b)]
     if not mappers:
         out.error("anchor missing: no exponent formatter that maps digits to superscripts is reachable from BaseRepresentationFactor::fmt")
